@@ -11,6 +11,8 @@ op:
             "queries":[T|null…]}}          T = {"cls":id} | {"base":name}
   | {"out":{"error":"missing","ns":ns}} | {"out":{"error":"unexisting","ns":ns,"ref":{"q","n"}}}
   | {"err":"fuel"} | {"err":"bad-op"}
+  {"op":"history","steps":[<imports request>…]}       one process, one directory, one meta-model per step
+  → {"out":{"steps":[<answer of the imports request>…]}}   (`Imp.loadHistory`: every step from its own files)
   every "out" also carries
     "doc": [[ns, rule, [D…]]…]   the documented resolution `docResolve` of every reference of every rule of
                                  every file of the request, D = {"rule":[ns,name]} | {"base":name} | null
@@ -83,9 +85,7 @@ def refCount (files : List (Ns × File)) (ns : Ns) : Nat :=
   | some f => (f.rules.map (·.refs.length)).sum
   | none => 0
 
-def handle (j : Json) : Json :=
-  match getStr? j "op" with
-  | some "imports" =>
+def handleImports (j : Json) : Json :=
     match getStr? j "main", (getArr? j "files").bind (·.toList.mapM parseFile),
         (getArr? j "queries").bind (·.toList.mapM parseRef) with
     | some main, some files, some queries =>
@@ -117,6 +117,18 @@ def handle (j : Json) : Json :=
           ("queries", Json.arr (queries.map fun q =>
               match getItem st q with | some t => targetJson t | none => Json.null).toArray)]))]
     | _, _, _ => badOp
+
+def handle (j : Json) : Json :=
+  match getStr? j "op" with
+  | some "imports" => handleImports j
+  | some "history" =>
+    match getArr? j "steps" with
+    | some steps =>
+      -- `loadHistory`: the answer of a step is the answer to that step's request alone
+      if steps.all (fun sj => getStr? sj "op" == some "imports") then
+        Json.mkObj [("out", Json.mkObj [("steps", Json.arr (steps.map handleImports))])]
+      else badOp
+    | none => badOp
   | _ => badOp
 
 def main : IO Unit := serve handle
